@@ -201,6 +201,45 @@ pub fn serve() {
                 }
                 json!({"ok": true, "probes": out})
             }
+            "fence_probe_fresh" => {
+                // single node, no lease loop, no monitor, no client left: every lease refresh happens inside the calls made here. Fill the open
+                // segment until this node applies the rollover sealing it, then send one more forwarded append with the key of the segment
+                // just sealed - the first lease refresh after the sealing is the one this call performs itself; it must be refused.
+                let mut out = json!({"skipped": "not a single-node cluster"});
+                if let Some(w) = &world {
+                    if w.nodes.len() == 1 {
+                        let n = &w.nodes[0];
+                        let t = req["topic"].as_str().unwrap_or("");
+                        let max_appends = req["max_appends"].as_u64().unwrap_or(6);
+                        if let Some(st) = n.md.get_topic_state(t) {
+                            let s0 = st.current_segment;
+                            let key = crate::controller::wal_key(t, s0);
+                            let mut sealed = false;
+                            let mut sent = 0u64;
+                            for _ in 0..max_appends {
+                                let resp = tokio::block_on(n.ctl.handle_rpc(InternalOp::ForwardAppend { wal_key: key.clone(), data: b"fresh-seal-filler".to_vec() }));
+                                sent += 1;
+                                if !matches!(resp, InternalResp::Ok) {
+                                    break;
+                                }
+                                if n.md.get_topic_state(t).map(|x| x.current_segment != s0).unwrap_or(false) {
+                                    sealed = true;
+                                    break;
+                                }
+                            }
+                            if sealed {
+                                let st2 = n.md.get_topic_state(t).unwrap();
+                                let resp = tokio::block_on(n.ctl.handle_rpc(InternalOp::ForwardAppend { wal_key: key.clone(), data: b"fence-probe-fresh".to_vec() }));
+                                out = json!({"node": n.id, "key": key, "sealed_segment": s0, "current_segment": st2.current_segment, "new_leader": st2.leader_node,
+                                             "fillers": sent, "accepted": matches!(resp, InternalResp::Ok), "resp": format!("{:?}", resp)});
+                            } else {
+                                out = json!({"skipped": "no rollover applied within the filler appends", "fillers": sent});
+                            }
+                        }
+                    }
+                }
+                json!({"ok": true, "probe": out})
+            }
             "exit" => {
                 let mut o = stdout.lock();
                 let _ = writeln!(o, "@{}", json!({"ok": true}));
